@@ -231,6 +231,9 @@ class Value(ABC):
         """
         original_value = value
 
+        if not value:
+            raise ValueTypeError("a value cannot be empty")
+
         if instruction and instruction.is_string_define:
             try:
                 return StringValue(value)
